@@ -792,8 +792,52 @@ func (r *ruler) v10() {
 		{"CALL", "=(.ParamCnt(", "global vm.ErrArity", "a wrong argument count is an arity error"},
 		{"ATON", "ToString.1", "global value.ErrType", "aton of a non-string is a type error"},
 		{"MOV", "IsNil#", "global value.ErrNil", "assigning nil is a nil error"},
-		{"JMPF", "ToBool.1", "global value.ErrType", "a non-boolean condition is a type error"},
-		{"JMPT", "ToBool.1", "global value.ErrType", "a non-boolean condition is a type error"},
+	}
+	// JMPF / JMPT: a condition that is not a boolean ends the run with the class
+	// the ! operator reports for that operand (value.Not: a missing value is a
+	// nil error, anything else a type error, pinned by A1). The compiler folds a
+	// leading ! of a condition into the jump (B6), so a jump with classes of its
+	// own makes 'if !x ..' fail differently from 't = !x' and 'if t ..' (D35).
+	for _, op := range []string{"JMPF", "JMPT"} {
+		key := r.key(op, "error class: a non-boolean condition fails like the ! operator (nil error for a missing value, type error otherwise)")
+		nNil, nType := 0, 0
+		var bad *Path
+		why := ""
+		for _, pa := range r.m.Paths[op] {
+			cs := condsWith(pa, "ToBool.1")
+			if len(cs) == 0 || !strings.HasSuffix(cs[len(cs)-1], ":= false") {
+				continue
+			}
+			got := pa.End
+			if pa.End == "return" && len(pa.Ret) == 2 {
+				got = absint.Key(pa.Ret[1])
+			}
+			ns := condsWith(pa, "IsNil#")
+			switch {
+			case len(ns) == 0:
+				if bad == nil {
+					bad, why = pa, "the handler reports every non-boolean condition as "+got+" without asking whether the value is missing: the ! operator reports a missing value as a nil error, so a negation folded into the jump changes the error class"
+				}
+			case strings.HasSuffix(ns[len(ns)-1], ":= true"):
+				nNil++
+				if got != "global value.ErrNil" && bad == nil {
+					bad, why = pa, "a missing value as condition must end the run with the nil error; it ends with "+got
+				}
+			default:
+				nType++
+				if got != "global value.ErrType" && bad == nil {
+					bad, why = pa, "a condition that is neither boolean nor missing must end the run with the type error; it ends with "+got
+				}
+			}
+		}
+		switch {
+		case bad != nil:
+			r.s.Bad("V10", key, r.ppos(bad), why, bad.Describe()...)
+		case nNil == 0 || nType == 0:
+			r.s.Bad("V10", key, r.pos, "a non-boolean condition: the handler does not test for this failure at all (no path on which the boolean test fails for a missing and for another value)")
+		default:
+			r.s.OK("V10", key, r.pos, fmt.Sprintf("%d nil-error and %d type-error exits", nNil, nType))
+		}
 	}
 	for _, w := range ws {
 		key := r.key(w.op, "error class: "+w.what)
